@@ -23,6 +23,7 @@ type C03 struct {
 	pre    map[uint64]map[string]math.Int
 	tre    map[uint64]map[string]math.Int
 	price  map[string]math.LegacyDec
+	ev0    int
 	cpPre  map[uint64]map[string]math.Int
 	cpBook map[uint64]map[string]math.Int
 }
@@ -38,6 +39,7 @@ func (m *C03) AroundModule(w *chain.World, ctx sdk.Context, module, phase string
 	if before {
 		m.pre, m.tre, m.price = map[uint64]map[string]math.Int{}, map[uint64]map[string]math.Int{}, map[string]math.LegacyDec{}
 		m.cpPre, m.cpBook = map[uint64]map[string]math.Int{}, map[uint64]map[string]math.Int{}
+		m.ev0 = len(w.PhaseEvents)
 		for _, p := range a.AmmKeeper.GetAllPool(ctx) {
 			if !p.PoolParams.UseOracle {
 				m.cpPre[p.PoolId] = balMap(w, ctx, p.Address)
@@ -96,9 +98,39 @@ func (m *C03) AroundModule(w *chain.World, ctx sdk.Context, module, phase string
 		if m.st.Eval(fmt.Sprintf("value/%d/%s", p.PoolId, module), fmtDelta(d)) {
 			m.st.Sample(map[string]interface{}{"height": ctx.BlockHeight(), "phase": module + ".end", "pool": p.PoolId, "pool_delta": fmtDelta(d), "treasury_delta": fmtDelta(td), "value_delta_raw": val.String()})
 		}
-		if new(big.Int).Add(val, allow).Sign() < 0 {
+		// What the property compares is what the pool pays out to traders with what traders pay in.
+		// The pool's own holdings also move towards its rebalance treasury (swap fees, the treasury's
+		// share of weight-breaking fees): with WeightBreakingFeePortion = 1 the holdings can shrink by
+		// fee x swap-fee x amount although every trader pays more than he gets. So transfers from the
+		// pool to its treasury are left out: paid = sum of transfers pool -> anybody else, taken = sum
+		// of transfers anybody -> pool, both read from the bank events of this phase.
+		paid, taken := new(big.Int), new(big.Int)
+		if m.ev0 <= len(w.PhaseEvents) {
+			for _, be := range ParseBankEvents(w.PhaseEvents[m.ev0:]) {
+				if be.Kind != "transfer" {
+					continue
+				}
+				for _, cn := range be.Coins {
+					pr, okp := m.price[cn.Denom]
+					if !okp {
+						continue
+					}
+					v := new(big.Int).Mul(cn.Amount.BigInt(), pr.BigInt())
+					if be.From == p.Address && be.Addr != p.RebalanceTreasury {
+						paid.Add(paid, v)
+					}
+					if be.Addr == p.Address {
+						taken.Add(taken, v)
+					}
+				}
+			}
+		}
+		if val.Sign() < 0 && new(big.Int).Add(val, allow).Sign() < 0 {
+			m.st.Ev("oracle_pool_holdings_shrank_towards_treasury")
+		}
+		if paid.Cmp(new(big.Int).Add(taken, allow)) > 0 {
 			w.Report(chain.Violation{Property: "C03", Rule: "C03.oracle_pool_value_not_paid_away", Scope: sc("pool", fmt.Sprint(p.PoolId), "phase", module), Relation: "pool_value_decreased",
-				Detail: fmt.Sprintf("height %d %s.end: oracle pool %d holdings changed by %s, worth %s (raw, at the oracle prices in force) - the pool paid out more than it took in", ctx.BlockHeight(), module, p.PoolId, fmtDelta(d), val)})
+				Detail: fmt.Sprintf("height %d %s.end: oracle pool %d paid out %s and took in %s (raw value at the oracle prices in force; transfers to its own treasury left out); holdings changed by %s - the pool paid out more than it took in", ctx.BlockHeight(), module, p.PoolId, paid, taken, fmtDelta(d))})
 		}
 	}
 }
